@@ -424,6 +424,11 @@ func profileScenarios(yield func(any)) {
 			p["subjectAttributes"] = J{"attributes": attrs("C?", "O?", "OU?", "CN?"), "allowOther": false}
 		}},
 		{"unconstrained", func(p J) { delete(p, "subjectAttributes") }},
+		// an optional attribute listed before required ones: the later ones stay required
+		{"optional-first-required-missing", func(p J) { p["subjectAttributes"] = J{"attributes": attrs("C?", "O", "OU", "CN"), "allowOther": false} }},
+		{"optional-first-required-missing-allowOther", func(p J) {
+			p["subjectAttributes"] = J{"attributes": attrs("L?", "C", "O", "SERIALNUMBER", "CN"), "allowOther": true}
+		}},
 		// the subject still meets the profile, but the certificate changes: only the profile file is newer
 		{"profile-ext", func(p J) {
 			p["extensions"] = []J{{"keyUsage": J{"content": []string{"digitalSignature"}}}, {"extendedKeyUsage": J{"content": []string{"clientAuth"}}}}
